@@ -752,11 +752,18 @@ func (tm *TaskMaster) forkPoint(p edge.PointMessage) {
 	}
 
 	// Merge the results to the forks map
-	for _, edge := range tm.forks[key] {
+	exact := tm.forks[key]
+	for _, edge := range exact {
 		_ = edge.Collect(p)
 	}
 
-	for _, edge := range tm.forks[emptyMeasurementKey] {
+	for id, edge := range tm.forks[emptyMeasurementKey] {
+		// A task has a single edge which is registered under every one of its keys.
+		// Skip the tasks that already got the point via the exact measurement key,
+		// otherwise they would receive the point twice.
+		if _, ok := exact[id]; ok {
+			continue
+		}
 		_ = edge.Collect(p)
 	}
 
